@@ -130,3 +130,24 @@ plan(Plan(
     own=_own("HTML.", "_normalize_text", "html_escape"),
     assumptions=["`+` with operands other than str/HTML goes through str(other), an external call (A5); other UserString methods (%, format, join) are not in the statement"],
 ))
+
+
+C14_FNS = [UTIL + "_flatten_recurse", UTIL + "flatten", CORE + "is_tag_node", CORE + "is_tag_child", CORE + "_tagchilds_to_tagnodes"] + \
+          [CORE + "TagList." + m for m in ("__init__", "extend", "append", "insert", "__add__", "__radd__", "__iadd__")] + \
+          [CORE + "Tag." + m for m in ("extend", "append", "insert")]
+plan(Plan(
+    id="C14", title="Child lists hold only normalised nodes after any sequence of operations",
+    contracts=C14_FNS,
+    lean={"HV.C14": ["flatInto_acc", "flatStep_acc", "C14_flat_nil", "C14_flat_seq", "C14_flat_none", "C14_flat_atom", "C14_flat_append", "C14_flat_idem",
+                     "C14_all_nodes", "C14_conv_number", "C14_conv_node", "C14_nodes_append", "C14_bad_append", "C14_nodes_cons_none", "C14_nodes_cons_node",
+                     "C14_nodes_cons_seq", "C14_nodes_ofNodes", "C14_nodes_taglist_child", "C14_accepted_are_children",
+                     "C14_insert_front", "C14_insert_end", "C14_insert_split", "C14_insert_len"],
+          "HV.C14b": ["flatC_atoms"]},
+    oracle="c14", design_ref="§7 C14",
+    claim="every mutator of TagList/Tag children (own and inherited through the MRO) is verified against `data' = data[:i] ++ nodes(args) ++ data[i:]`, "
+          "TypeError with data unchanged for unsupported arguments; stores into the child list carry a `stores-only-nodes` obligation; flattening/conversion algebra proved in Lean",
+    assumptions=["UserList.__init__ / extend / slice assignment are modelled from the stdlib source as data = list(x) / data.extend(x) / data[i:i] = x (A3), not verified",
+                 "slicing (`tl[i:j]`) and repetition (`tl * n`) go through UserList.__getitem__/__mul__ -> TagList(list): covered by Lean C14_nodes_ofNodes (re-normalising stored nodes is the identity) "
+                 "and by the bounded oracle, not by an R-obligation on the stdlib methods",
+                 "objects of unsupported type (CBad) have none of tagify/_repr_html_ and are not Sequences (A2)"],
+))
